@@ -640,6 +640,12 @@ func checkC06(c *CheckCtx) error {
 		calls := []concCall{{G: "A", Test: "TestA", Kind: "create", Value: "value of A", Second: true}, {G: "B", Test: "TestB", Kind: kb, Value: "value of B"}}
 		pairs = append(pairs, pairT{calls, []int{0, 1}})
 	}
+	// the same with prefix-related test names (TestA / TestAB): a finishing test must not reach the
+	// ordinals of another test whose name merely starts with its name
+	for _, kb := range []string{"create", "update"} {
+		calls := []concCall{{G: "A", Test: "TestAB", Kind: "create", Value: "value of AB", Second: true}, {G: "B", Test: "TestA", Kind: kb, Value: "value of A"}}
+		pairs = append(pairs, pairT{calls, []int{0, 1}})
+	}
 	// schedules enumerated directly on the real code
 	logsValidated := 0
 	var all []*concCase
